@@ -304,7 +304,7 @@ func H_C07_np_targets() {
 		"e": "err", "a": []interface{}{map[string]interface{}{"1": 2}, map[string]interface{}{}},
 	})
 	verif.Assume(err == nil)
-	k := verif.Choice("target", 22)
+	k := verif.Choice("target", 26)
 	verif.Reach("monitor: odd target")
 	verif.NoPanic("C07/unsupported target or source panics", func() {
 		switch k {
@@ -344,6 +344,35 @@ func H_C07_np_targets() {
 		case 15:
 			var np *c07Chan
 			ucfg.NewFrom(np)
+		case 22:
+			// a Config passed by value as merge source
+			d := ucfg.New()
+			d.Merge(*c)
+		case 23:
+			// an interface{} field that already holds a struct value / a pointer to one
+			t := struct {
+				F interface{} `config:"m"`
+			}{F: c07Plain{C: 1}}
+			c.Unpack(&t)
+			t2 := struct {
+				F interface{} `config:"m"`
+			}{F: &c07Plain{C: 1}}
+			c.Unpack(&t2)
+		case 24:
+			// interface{} field holding a map / a slice / a primitive
+			t := struct {
+				F interface{} `config:"m"`
+				G interface{} `config:"l"`
+				H interface{} `config:"c"`
+			}{F: map[string]interface{}{"old": 1}, G: []int{1, 2}, H: "str"}
+			c.Unpack(&t)
+		case 25:
+			// a Config by value inside the target and the source
+			t := struct {
+				S ucfg.Config `config:"m"`
+			}{}
+			c.Unpack(&t)
+			ucfg.NewFrom(map[string]interface{}{"k": *c})
 		case 16:
 			var np *c07Plain // nil pointer to a perfectly fine struct
 			c.Unpack(np)
